@@ -293,6 +293,10 @@ pub fn spaces(tier: Tier) -> Vec<Space<'static>> {
             check_value(&RVal::Str(s), acc, true)
         }));
     }
+    {
+        let tv = refmodel::gen::tagv_docs();
+        sp.push(Space::new("tag-like payloads and keyword keys", tv.len() as u64, move |i, acc| check_value(&tv[i as usize], acc, true)));
+    }
     let b = univ::b64_finite();
     sp.push(Space::new("b64-finite", b.len() as u64, move |i, acc| check_value(&RVal::Arr(vec![RVal::Num(b[i as usize]), RVal::Null]), acc, true)));
     sp.push(Space::new("floats-top16", 1 << 16, |i, acc| {
